@@ -13,6 +13,7 @@ import (
 	"fmt"
 	"io"
 	"math/big"
+	"os"
 	"runtime/debug"
 	"sort"
 	"strings"
@@ -226,7 +227,8 @@ type node struct {
 	state cstate.LatestBlockState
 	gen   *genesis.Genesis
 
-	capEvery bool // flatten the snapshot to disk after every applied block
+	capEvery   bool // flatten the snapshot to disk after every applied block
+	generating bool // the snapshot generation is held: every execution is probed (genMarker != nil, ErrNotCoveredYet)
 
 	mu           sync.Mutex
 	txErrs       map[common.Hash]string // "ApplyTransaction failed" records of the last block (BlockOperations' logger)
@@ -601,8 +603,14 @@ func (n *node) applyBlock(block *types.Block, parts *types.PartSet, seen *types.
 	n.txErrs = map[common.Hash]string{}
 	n.mu.Unlock()
 	n.reported = nil
+	if n.generating {
+		n.probeGenerating()
+	}
 	n.bo.SaveBlock(block, parts, seen)
 	st, _, err := n.exec.ApplyBlock(n.state, id, block)
+	if n.generating {
+		n.probeGenerating()
+	}
 	if err != nil {
 		o.Err = "ApplyBlock: " + firstLine(err.Error())
 		return o
@@ -619,6 +627,26 @@ func (n *node) applyBlock(block *types.Block, parts *types.PartSet, seen *types.
 }
 
 var flattenings atomic.Int64
+
+var generatingExecs, notCoveredProbes, generatingBroken atomic.Int64
+
+// an address no template touches: its read goes through to the disk layer
+var probeAddr = common.HexToAddress("0x00000000000000000000000000000000dead0c06")
+
+// probeGenerating measures that a "snapshot still generating" node really is in that state: genMarker != nil and an
+// account read at the head answers ErrNotCoveredYet.
+func (n *node) probeGenerating() {
+	g, nc := n.bc.VerifC06SnapshotProbe(probeAddr)
+	if g && nc {
+		generatingExecs.Add(1)
+		notCoveredProbes.Add(1)
+	} else {
+		generatingBroken.Add(1)
+		if os.Getenv("C06_DEBUG") != "" {
+			fmt.Println("probe broken:", n.kind, n.cfg, "generating", g, "notCovered", nc, "height", n.bc.CurrentBlock().Height())
+		}
+	}
+}
 
 func (n *node) observe(o *obs, block *types.Block) {
 	st := n.state
